@@ -314,3 +314,101 @@ def shared_contracts(ctx, rule="RO"):
                     uses = True
     if uses:
         point_order_contract(ctx, rule)
+
+
+# ---------------------------------------------------------------------------------------------------------------------
+# RK: library semantics the rules were written against.  Every call into numpy / scipy / pandas / xarray / sklearn (and every
+# method call on a value whose class the analyser does not know) made by an anchored function is recorded, per function, with the
+# parameter names it binds (positional arguments are named through contracts.SIGNATURES where known).  A keyword that was not bound
+# when the rules were confirmed changes what the library call does (endpoint=False, unpack=True, as_index=False, order="F",
+# furthest_site=True ...) in a way no rule models: that is UNDECIDED (exit 2), never a silent pass - unless the keyword is given
+# its documented default.
+LIB_PREFIXES = ("numpy.", "scipy.", "pandas.", "xarray.", "sklearn.", "pykdtree.", "numba.", "dask.")
+from ..contracts import LIB_DEFAULTS  # noqa: E402
+
+
+def library_calls(ctx, qn):
+    """{"callee|name"} for every library call (and unknown-receiver method call) on the paths of qn, helpers looked through"""
+    from .. import contracts
+    fa = ctx.an.fa(qn)
+    out = {}
+    if not fa.ok:
+        return None
+    for fx in [fa] + list(fa.nested.values()):
+        for p in fx.paths:
+            for e in p.events:
+                if e.kind != "call":
+                    continue
+                t = e.data[0]
+                c = callee(t)
+                if not (c.startswith(LIB_PREFIXES) or (c.startswith(".") and t[1][0] == "attr" and t[1][1] != Q.SELF)):
+                    continue
+                names = contracts.SIGNATURES.get(c)
+                if c.startswith("numpy.") and names is None and t[1][0] == "glob":
+                    names = None
+                for i, a in enumerate(t[2]):
+                    if a[0] == "star":
+                        continue
+                    nm = names[i] if names is not None and i < len(names) else "#%d" % i
+                    out.setdefault("%s|%s" % (c, nm), a)
+                for k, v in t[3]:
+                    if k is not None:
+                        out.setdefault("%s|%s" % (c, k), v)
+    return out
+
+
+def library_keywords(ctx, rule="RK"):
+    import json
+    from ..report import VERIF
+    f = VERIF / "baseline" / "libcalls.json"
+    if not f.exists():
+        return
+    base = json.loads(f.read_text())
+    for qn in sorted(q for q in ctx.consulted if q in ctx.pkg.functions and q in base):
+        cur = library_calls(ctx, qn)
+        if cur is None:
+            continue
+        known = set(base[qn])
+        callees_known = {k.split("|")[0] for k in known}
+        news = []
+        for key, val in sorted(cur.items()):
+            if key in known:
+                continue
+            c, nm = key.split("|", 1)
+            if c not in callees_known:
+                continue                      # a library function this code did not call before: the property rules decide (or not) what it means
+            if nm.startswith("#"):
+                continue
+            d = LIB_DEFAULTS.get((c, nm), "<none>")
+            if d != "<none>" and (val == const(d) or (d is None and val == NONE)):
+                continue
+            news.append("%s(%s=%s)" % (c, nm, show(val)[:40]))
+        ctx.check(rule, qn + "|library-keywords-modelled", None if news else True, "every library call binds only the parameters that were bound when the rules were confirmed (or explicit defaults)",
+                  fn=qn, nontrivial=False, undecided="library semantics outside the model: %s - a keyword that the rules for this function never saw changes what the call returns" % ", ".join(news[:3]))
+
+
+def accumulate_uninitialised(ctx, rule="RA"):
+    """`buf += x` / `buf[i] += x` where buf was allocated with np.empty / np.empty_like and never assigned as a whole: the sum starts from
+    whatever the allocator returned (often zeros in a fresh process - which is why tests pass)."""
+    for qn in sorted(q for q in ctx.consulted if q in ctx.pkg.functions):
+        fa = ctx.an.fa(qn)
+        if not fa.ok:
+            continue
+        bad = None
+        for fx in [fa] + list(fa.nested.values()):
+            for p in fx.paths:
+                written = set()
+                for e in p.events:
+                    if e.kind == "store" and e.data[0][0] == "call":
+                        written.add(e.data[0])
+                    elif e.kind == "aug":
+                        cur = e.data[0]
+                        base = cur
+                        while base[0] == "sub":
+                            base = base[1]
+                        while base[0] in ("prev", "mu"):
+                            base = base[3]
+                        if base[0] == "call" and callee(base) in ("numpy.empty", "numpy.empty_like") and base not in written:
+                            bad = bad or (show(base)[:60], e.line)
+        ctx.check(rule, qn + "|accumulators-initialised", False if bad else True, "no in-place accumulation into a buffer from np.empty / np.empty_like", fn=qn, nontrivial=False,
+                  bad="%s is accumulated into (+=) without ever being initialised: the result contains whatever memory the allocator returned" % (bad[0] if bad else ""), line=bad[1] if bad else None)
